@@ -94,7 +94,10 @@ def toUInt32 : PyVal → Except PyErr PyVal
   | .bool b => .ok (.int .uint32 (if b then 1 else 0))
   | _ => .error .other        -- int(x) of a non-int: outside the documented argument types
 
-/-- The wrapper typing of `_marshal`'s header loop. -/
+/-- The wrapper typing of `_marshal`'s header loop.  (`reply_serial` is typed by the constructors -
+`marshal.UInt32(reply_serial)` - not here; the proposed repair fixes/C14-03 adds `reply_serial` to the
+`unix_fds` branch for re-marshalled PARSED messages: when it is applied, the `.replySerial` case becomes
+`toUInt32 hval`, which is the identity on what the constructors store.) -/
 def wrapAttr (a : Attr) (hval : PyVal) : Except PyErr PyVal :=
   match a with
   | .path => toStrCls .objectPath hval
